@@ -163,18 +163,24 @@ def tag_env(steps):
 def mon_store_immutable(steps, meta):
     """C04: nothing already in the file store or project store is changed or removed"""
     prev = None
+    removed_by_env = set()
     for st in steps:
+        if st.op in ("rm", "rmdir") and len(st.tok) > 1:
+            removed_by_env.add(unhexs(st.tok[1])[len(CANON_ROOT):])
         if st.dump is None:
             continue
         cur = {p: e for p, e in st.dump.items() if (under("/k/store", p) or under("/k/projects", p)) and e[0] == "file"}
         if prev is not None:
             for p, e in prev.items():
                 c = cur.get(p)
+                if p in removed_by_env:
+                    continue      # the scenario itself removed it (a stray file put there by the scenario)
                 if c is None:
                     return "store entry %s disappeared" % p
                 if e[0] != c[0] or (e[0] == "file" and file_sig(e) != file_sig(c)):
                     return "store entry %s changed from %s to %s" % (p, e, c)
         prev = cur
+        removed_by_env = set()
     return None
 
 
@@ -739,12 +745,33 @@ PROJECTS = {"proj": "/w/proj", "p1": "/w/pp/p1", "p2": "/w/pp/p2"}
 
 
 def mon_projects(steps, meta):
-    """C11: a new snapshot holds hard links to the latest version of every versioned member that still exists"""
+    """C11: a new snapshot holds hard links to the latest version of every versioned member that still exists;
+    a project entry leaves the pending queue only with its snapshot taken (exactly one per entry)"""
     prev = None
+    between = []
     for st in steps:
+        if st.op in HANDLER_OPS:
+            between.append(st)
         if st.dump is None:
             continue
         cur = st.dump
+        if prev is not None and st.tag_same_env and len(between) == 1 and between[0].op == "timeout":
+            left = {x[1] for x in queue_of(cur)}
+            qp = queue_of(prev)
+            for qi, (_, num, path, m, mt) in enumerate(qp):
+                if not (m & 1) or num in left:
+                    continue
+                if any(x[2] == path for x in qp[qi + 1:]):
+                    continue      # coalesced: a later entry of the same project stands for it
+                name = path.rstrip("/").rsplit("/", 1)[1]
+                root = PROJECTS.get(name)
+                if root is None or root not in cur or cur[root][0] != "dir":
+                    continue
+                nsn = [p for p, e in cur.items() if e[0] == "dir" and p not in prev and re.match(r"^/k/projects/%s/[^/]+$" % re.escape(name), p)]
+                if len(nsn) != 1:
+                    return ("the pass (%s) removed the pending entry of project %s, which still exists, and created %d snapshot directories instead of exactly one"
+                            % (between[0].result, name, len(nsn)))
+        between = []
         if prev is not None and st.tag_same_env:
             snaps = [p for p, e in cur.items() if e[0] == "dir" and p not in prev and re.match(r"^/k/projects/[^/]+/[^/]+$", p)]
             for sdir in snaps:
@@ -773,6 +800,26 @@ def mon_projects(steps, meta):
     return None
 
 
+def _snapshot_complete(cur, sdir, name, root):
+    """every versioned member of the project that still exists is in the snapshot as a link to one of its versions"""
+    pre = "/k/var/projects/%s/" % name
+    for p, e in cur.items():
+        if p.startswith(pre) and e[0] == "file":
+            m = p[len(pre):]
+            src = cur.get(root + "/" + m)
+            if not (src and src[0] == "file"):
+                continue
+            got = cur.get(sdir + "/" + m)
+            vdir = "/k/store/%s/%s/" % (root[len("/w/"):], m)
+            vers = sorted((q for q in cur if q.startswith(vdir)), key=lambda q: version_key(q.rsplit("/", 1)[1]))
+            # after a crash between the pop of a member and the update of its link in the unstable tree the
+            # snapshot legitimately holds the previous version (no property quantifies crashes over C11's
+            # "latest"); what recovery owes is a snapshot with every surviving member linked to a stored version
+            if not got or not vers or got[1] not in [cur[v][1] for v in vers]:
+                return False
+    return True
+
+
 def mon_recovery(steps, meta):
     """C03/C10: after the disturbed operation and a restart + drain, every file that was pending and still is a
     readable regular file has a complete version; the queue reloads"""
@@ -798,6 +845,15 @@ def mon_recovery(steps, meta):
             return "restart after the disturbance failed: %s" % st.trace
     for (_, num, path, m, mt) in queue_of(pre):
         if m & 1:
+            # a pending project: unless the project is gone, recovery must produce a complete snapshot of it
+            name = path.rstrip("/").rsplit("/", 1)[1]
+            root = PROJECTS.get(name)
+            if root is None or root not in last or last[root][0] != "dir":
+                continue
+            snaps = [p for p, e in last.items() if e[0] == "dir" and p not in pre and re.match(r"^/k/projects/%s/[^/]+$" % re.escape(name), p)]
+            if not any(_snapshot_complete(last, sd, name, root) for sd in snaps):
+                return ("project %s was pending before the disturbance and still exists, but recovery produced no complete snapshot of it (new snapshot directories: %s)"
+                        % (name, snaps))
             continue
         rel = path[len(CANON_ROOT + "/w/"):]
         src = last.get("/w/" + rel)
@@ -837,6 +893,27 @@ def mon_no_partial(steps, meta):
     if len(dumps) < 2:
         return None
     pre, last = dumps[0], dumps[-1]
+    # a copy whose failure was reported (fault between the exclusive create and the close of the new file)
+    # must not leave the file it was writing: its completeness is unknown and the item, still pending,
+    # will be stored again
+    if meta.get("phase") == "copy":
+        seen_oracle = False
+        for i, st in enumerate(steps):
+            if st.op == "oracle":
+                seen_oracle = True
+            elif seen_oracle and st.op in HANDLER_OPS:
+                if st.result == "error":
+                    after = next((x.dump for x in steps[i + 1:] if x.dump is not None), None)
+                    # the file being written: the last successful exclusive create before the failing call
+                    dest = None
+                    for l in ([] if "W|CREAT|EXCL" in meta.get("callline", "") else st.log[:meta.get("k", 0)]):
+                        t = l.split(" ")
+                        if len(t) >= 6 and t[1] == "open" and t[3] == "W|CREAT|EXCL" and t[-1] == "fd":
+                            dest = t[2].replace("$", "", 1)
+                    if after is not None and dest and dest in after and dest not in pre and after[dest][0] == "file":
+                        return ("the copy failed (%s at call %s '%s', error reported) but the version file %s it was writing stays in the store"
+                                % (meta.get("errno"), meta.get("k"), meta.get("callline"), dest))
+                break
     for p, e in last.items():
         if p.startswith("/k/store/") and e[0] == "file" and p not in pre:
             rel = p[len("/k/store/"):].rsplit("/", 1)[0]
@@ -1009,8 +1086,13 @@ def mon_no_error(steps, meta):
         return None
     if any(st.line.startswith("cfgbind invalid") for st in steps):
         return None
+    blocked = False     # the scenario made the project store unusable (stray file): an error is the right answer
     for st in steps:
-        if st.op in HANDLER_OPS and st.result == "error":
+        if st.op == "put" and unhexs(st.tok[1]) == CANON_ROOT + "/k/projects":
+            blocked = True
+        if st.op == "rm" and unhexs(st.tok[1]) == CANON_ROOT + "/k/projects":
+            blocked = False
+        if st.op in HANDLER_OPS and st.result == "error" and not blocked:
             msgs = [unhexs(t.split(":", 1)[1]) for t in (st.trace or "").split()[1:]]
             return "operation '%s' stopped the daemon: %s" % (st.line.split()[0], " <- ".join(msgs)[:200])
     return None
